@@ -20,7 +20,8 @@ LEVEL = "exploration"
 ANCHORS = ["prov.model:ProvRecord.copy", "prov.model:ProvBundle.add_record", "prov.model:ProvDocument.unified", "prov.model:ProvBundle.unified",
            "prov.model:ProvDocument.add_bundle", "prov.model:ProvDocument.flattened", "prov.model:ProvDocument.update", "prov.model:ProvBundle.update",
            "prov.model:ProvBundle.__init__", "prov.model:NamespaceManager.__init__"]
-DERIVE = ["copy", "add_record", "ctor", "update", "add_bundle_doc", "unified", "bundle_unified", "flattened", "json", "xml", "rdf"]
+DERIVE = ["copy", "add_record", "add_record_same_document", "update_self", "ctor", "update", "add_bundle_doc", "unified", "bundle_unified",
+          "flattened", "json", "xml", "rdf"]
 MUTATORS = ["add_attribute", "add_value", "add_record", "add_namespace", "set_default", "add_bundle"]
 
 
@@ -181,6 +182,28 @@ def judge(ctx, idx, case):
                 s = r.choice(recs)
                 tgt = r.choice([other] + list(other.bundles))
                 pairs = [(s, tgt.add_record(s)), (src, other)]
+            elif dname == "add_record_same_document":
+                # a record added to the container it already belongs to (or to a sibling container of the same document) is a
+                # new record as well: the two statements are independent from then on
+                recs = [x for c in [src] + list(src.bundles) for x in c._records]
+                if not recs:
+                    continue
+                s = r.choice(recs)
+                tgt = s.bundle if r.random() < 0.6 else r.choice([src] + list(src.bundles))
+                new = tgt.add_record(s)
+                src_before = view(src)      # adding to the source itself is the intended change
+                pairs = [(s, new)]
+            elif dname == "update_self":
+                n = len(src._records)
+                if not n:
+                    continue
+                src.update(src)
+                src_before = view(src)
+                if len(src._records) != 2 * n:
+                    ctx.count("derive.update_self.unexpected_length")
+                    continue
+                i = r.randrange(n)
+                pairs = [(src._records[i], src._records[n + i])]
             elif dname == "ctor":
                 pairs = [(src, pm.ProvDocument(records=src.get_records(), namespaces=list(src.namespaces)))]
             elif dname == "update":
@@ -237,7 +260,7 @@ def judge(ctx, idx, case):
                 target, watched = (b, a) if side == "result" else (a, b)
                 for how in r.sample(MUTATORS, 2) + (["add_namespace", "set_default"] if any("NamespaceManager" in s for s in shared) else []) \
                         + (["add_attribute", "add_value"] if any("record" in s or "value set" in s for s in shared) else []):
-                    if dname == "copy" and how not in ("add_attribute", "add_value"):
+                    if dname in ("copy", "add_record_same_document", "update_self") and how not in ("add_attribute", "add_value"):
                         continue
                     before = view(watched)
                     try:
